@@ -53,9 +53,10 @@ VARIABLES cfg, fault,                      \* chosen in Init, never changed
           im,                              \* the child's process image being prepared
           ci, cerr, perr, pres,            \* child step index, child/parent error in flight, parent result
           wi, cache,                       \* the caller's wait calls on the Child: index into cfg.wseq, Process.status
+          round,                           \* 1, or 2 = the same Command value is spawned a second time
           returns, child, execd, image, reaped, cstatus, waits   \* the observation
 vars_all == <<cfg, fault, pc, bi, argv, envmode, vars, envp, theirs, pin, pipe, cnt, fired, hist, F,
-              im, ci, cerr, perr, pres, wi, cache, returns, child, execd, image, reaped, cstatus, waits>>
+              im, ci, cerr, perr, pres, wi, cache, round, returns, child, execd, image, reaped, cstatus, waits>>
 
 Obs == [returns |-> returns, failed |-> F, child |-> child, execd |-> execd, image |-> image,
         reaped |-> reaped, cstatus |-> cstatus, waits |-> waits]
@@ -74,6 +75,29 @@ AbsCfg(c) == [bin |-> IF c.prog = "ok" THEN "bin" ELSE "nobin",
 
 NoImage == [prog |-> "-", argv |-> << >>, envp |-> << >>, cwd |-> "-", io |-> <<"-", "-", "-">>,
             uid |-> 0, gid |-> 0, pg |-> "-"]
+
+\* the state that belongs to ONE spawn call (everything but the Command value itself)
+FreshSpawn ==
+    /\ theirs' = <<"-", "-", "-">>
+    /\ pin' = FALSE
+    /\ pipe' = [data |-> << >>, w |-> {}, r |-> {}]
+    /\ cnt' = [p \in {"P", "C"} |-> [s \in SysNames |-> 0]]
+    /\ hist' = [p \in {"P", "C"} |-> << >>]
+    /\ F' = {}
+    /\ im' = [io |-> <<"inherit", "inherit", "inherit">>, cwd |-> "cwd0", uid |-> 0, gid |-> 0, pg |-> "parent"]
+    /\ ci' = 1
+    /\ cerr' = 0
+    /\ perr' = 0
+    /\ pres' = "-"
+    /\ wi' = 1
+    /\ cache' = NoStatus
+    /\ returns' = << >>
+    /\ child' = "none"
+    /\ execd' = FALSE
+    /\ image' = NoImage
+    /\ reaped' = FALSE
+    /\ cstatus' = 0
+    /\ waits' = NoWaits
 
 Init ==
     /\ cfg \in Cfgs
@@ -96,6 +120,9 @@ Init ==
     /\ cerr = 0
     /\ perr = 0
     /\ pres = "-"
+    /\ wi = 1
+    /\ cache = NoStatus
+    /\ round = 1
     /\ returns = << >>
     /\ child = "none"
     /\ execd = FALSE
@@ -103,8 +130,6 @@ Init ==
     /\ reaped = FALSE
     /\ cstatus = 0
     /\ waits = NoWaits
-    /\ wi = 1
-    /\ cache = NoStatus
 
 (* ---- bookkeeping of one system call ---------------------------------------------------- *)
 Hit(p, s) == ~fired /\ fault.p = p /\ fault.sys = s /\ fault.k = cnt[p][s] + 1
@@ -117,7 +142,7 @@ Did(p, s, e) ==
     /\ F' = IF e # 0 THEN F \cup {[proc |-> p, step |-> s, errno |-> IF e > 0 THEN e ELSE 0]} ELSE F
 NoCall == UNCHANGED <<cnt, fired, hist, F>>
 
-cfgv   == <<cfg, fault, wi, cache>>     \* never changed except by the caller's wait calls
+cfgv   == <<cfg, fault, wi, cache, round>>     \* never changed except by the caller's wait calls / Respawn
 buildv == <<bi, argv, envmode, vars, envp>>
 obsv   == <<returns, child, execd, image, reaped, cstatus, waits>>
 Goto(p, l) == pc' = [pc EXCEPT ![p] = l]
@@ -328,7 +353,7 @@ DriverOp ==
             /\ Report("none", 0)
             /\ UNCHANGED <<cache, reaped>>
     /\ wi' = wi + 1
-    /\ UNCHANGED <<pin, cfg, fault, pc, buildv, theirs, pipe, im, ci, cerr, perr, pres, returns, child, execd, image, cstatus>>
+    /\ UNCHANGED <<pin, cfg, fault, round, pc, buildv, theirs, pipe, im, ci, cerr, perr, pres, returns, child, execd, image, cstatus>>
 
 \* the caller is done with the Child (dropping it closes the pipes it still owns)
 DriverDone ==
@@ -483,10 +508,25 @@ CallerCopyExits ==
 
 Terminal == pc.P = "done" /\ pc.C \in {"none", "gone"}
 
+(* ---- the same Command value is used again: Command::spawn takes &mut self and hands do_spawn   *)
+(* POINTERS into argv / envp and the closures by reference - nothing of the Command is consumed,  *)
+(* so a second spawn (optionally after another builder step) must behave like the first           *)
+Respawn ==
+    /\ Terminal
+    /\ round = 1
+    /\ cfg.respawn # "none"
+    /\ round' = 2
+    /\ argv' = IF cfg.respawn = "arg" THEN Append([argv EXCEPT ![Len(argv)] = "a3"], NULL) ELSE argv   \* Command::arg
+    /\ pc' = [P |-> "sio", C |-> "none"]
+    /\ bi' = 1
+    /\ FreshSpawn
+    /\ UNCHANGED <<cfg, fault, fired, envmode, vars, envp>>
+
 Next == \/ BuildArg \/ BuildEnv \/ SetupIo \/ SyncPipe \/ Fork \/ ParentCloseWrite \/ ReadPipe
         \/ ParentWait \/ Return \/ DriverDropStdin \/ DriverOp \/ DriverDone
         \/ ChildCloseRead \/ Dup2 \/ Chdir \/ Setuid \/ Setgid \/ Setpgid \/ PreExec \/ Execve
         \/ WriteErrno \/ Exit1 \/ ProgExits \/ CallerCopyExits
+        \/ Respawn
         \/ (Terminal /\ UNCHANGED vars_all)     \* so that a deadlock = somebody blocked forever
 
 Spec == Init /\ [][Next]_vars_all
@@ -496,7 +536,9 @@ Spec == Init /\ [][Next]_vars_all
 Terminated(v) == Len(v) >= 1 /\ v[Len(v)] = NULL /\ \A i \in 1..(Len(v) - 1) : v[i] # NULL
 VectorsTerminated == Terminated(argv) /\ (envmode = "provided" => Terminated(envp))
 
-AbsViolated == Violated(AbsCfg(cfg), Obs, Terminal)
+\* what the caller has configured by now: a builder step between the two spawns counts for the second
+AbsCfgNow == [AbsCfg(cfg) EXCEPT !.args = IF round = 2 /\ cfg.respawn = "arg" THEN Append(@, "a3") ELSE @]
+AbsViolated == Violated(AbsCfgNow, Obs, Terminal)
 AbsHolds == AbsViolated = {}
 
 \* "the parent never blocks forever on the sync pipe" = absence of deadlock (CHECK_DEADLOCK
